@@ -22,6 +22,7 @@ use std::{result, thread};
 use std::sync::Arc;
 
 use glob::{glob, Paths};
+use libfs::is_same_file;
 use libxcp::config::{Config, Reflink};
 use libxcp::drivers::load_driver;
 use libxcp::errors::{Result, XcpError};
@@ -124,7 +125,9 @@ fn main() -> Result<()> {
         if source.is_dir() && !opts.recursive {
             return Err(XcpError::InvalidSource("Source is directory and --recursive not specified.").into());
         }
-        if source == &dest {
+        // Not only textually: `./d`, an absolute spelling or a link may
+        // name the source itself.
+        if source == &dest || (dest.exists() && is_same_file(source, &dest)?) {
             return Err(XcpError::InvalidSource("Cannot copy a directory into itself").into());
         }
 
@@ -139,7 +142,7 @@ fn main() -> Result<()> {
             dest.to_path_buf()
         };
 
-        if source == &target_base {
+        if source == &target_base || (target_base.exists() && is_same_file(source, &target_base)?) {
             return Err(XcpError::InvalidSource("Source is same as destination").into());
         }
     }
